@@ -23,8 +23,14 @@ kept = dropped = 0
 for pid, f, name in cands:
     body = json.load(open(f))
     size = len(json.dumps(body))
-    if size > 60000:
-        print('skip (too large)', f)
+    steps = body.get('case', {}).get('steps') if isinstance(
+        body.get('case'), dict) else None
+    heavy = steps and sum(1 for s_ in steps if s_.get('op') in (
+        'fault', 'placed', 'rejected', 'cmdfail', 'twin')) > 12
+    if size > 60000 or heavy:
+        print('skip (too large / too slow for the replay tier)', f)
+        continue
+    if os.path.exists(os.path.join(HERE, 'regressions', pid, name)):
         continue
     p = subprocess.run([os.path.join(HERE, 'bin', 'check'), pid, '--replay',
                         f], stdout=subprocess.PIPE, stderr=subprocess.STDOUT,
